@@ -7,6 +7,7 @@ arbitrary input of the run-loop model (Model/ScenarioRun.lean).
 -/
 import SpiceEv.Proofs.ScenarioRun
 import SpiceEv.Proofs.Strategies
+import SpiceEv.Proofs.StrategiesBat
 set_option linter.unusedSectionVars false
 namespace SpiceEv
 variable {α : Type} [Field α] [LinearOrder α] [IsStrictOrderedRing α]
@@ -196,5 +197,129 @@ theorem C04_greedy_balanced_loop (rule : Rule) {B : Type} (ops : BatOps α B) (l
     (hinv : LoopInv A0 st.1 st.2.2)
     (h : ids.foldlM (allocVehicle rule ops env) st = .ok st') : LoopInv A0 st'.1 st'.2.2 :=
   allocFold_inv rule ops law env A0 ids st st' hinv h
+
+/-- **Greedy and balanced never break the limit — with stationary-battery support.**
+Same statement as `C04_greedy_balanced_upper` for worlds with any number of stationary batteries,
+under the additional battery law that a target-power request to `unload` delivers exactly
+`min target available` (the target-power sentence of C02): greedy may offer vehicles more than
+the headroom, but only as much as the batteries at that connector can deliver (`A0`), the battery
+pass then discharges exactly the excess.  Hypotheses: distinct connector ids and battery ids,
+`get_available_power` succeeds with non-negative values, minimum charging powers ≥ 0. -/
+theorem C04_greedy_balanced_upper_batteries (rule : Rule) {B : Type} (ops : BatOps α B)
+    (law : BatLaw ops) (hex : UnloadExact ops) (env : StratEnv α) (heps : 0 ≤ env.eps)
+    (w w' : SWorld α B) (cmds : List (String × α)) (av : String → α) (hav0 : ∀ k, 0 ≤ av k)
+    (havb : ∀ b ∈ w.batteries, ops.available b.bat = .ok (av b.id))
+    (hmin : ∀ b ∈ w.batteries, 0 ≤ b.minChargingPower)
+    (hbnd : (w.batteries.map (·.id)).Nodup) (hgnd : (w.gcs.map (·.id)).Nodup)
+    (h0 : ∀ g ∈ w.gcs, 0 ≤ g.curMax ∧ g.currentLoad ≤ g.curMax)
+    (h : ruleStep rule ops env w = .ok (w', cmds)) :
+    ∀ g ∈ w'.gcs, g.currentLoad ≤ g.curMax := by
+  unfold ruleStep at h
+  rw [availBatPower_eq ops av w havb] at h
+  simp only [bind, Except.bind] at h
+  split at h
+  · cases h
+  · rename_i st1 hfold
+    obtain ⟨w1, c1, a1⟩ := st1
+    simp only at h
+    split at h
+    · cases h
+    · rename_i st2 hsur
+      obtain ⟨w2, c2⟩ := st2
+      simp only at h
+      split at h
+      · cases h
+      · rename_i w3 hub
+        simp only [Except.ok.injEq, Prod.mk.injEq] at h
+        obtain ⟨rfl, _⟩ := h
+        set A0 : String → α := fun k => supR av w.batteries k with hA0
+        set avail0 := w.gcs.map (fun g => (g.id, supR av w.batteries g.id)) with hav0'
+        have hAv : ∀ g ∈ w.gcs, availOf avail0 g.id = A0 g.id :=
+          fun g hg => availOf_map (fun k => supR av w.batteries k) w.gcs g hg
+        -- vehicle pass
+        have hinv0 : LoopInv A0 (resetStations w) avail0 := by
+          intro g hg
+          simp only [resetStations_gcs] at hg
+          rw [hAv g hg]
+          exact ⟨by simpa using (h0 g hg).2, supR_nonneg av hav0 _ _, le_refl _⟩
+        have hch0 : CheapInv A0 env (resetStations w) avail0 := by
+          intro g hg _
+          simp only [resetStations_gcs] at hg
+          exact hAv g hg
+        have hinv1 := allocFold_inv rule ops law env A0 _ _ (w1, c1, a1) hinv0 hfold
+        have hch1 := allocFold_cheapInv rule ops env A0 _ _ (w1, c1, a1) hch0 hfold
+        have hsm1 : SameMeta (resetStations w) w1 := allocFold_sameMeta rule ops env _ _ (w1, c1, a1) hfold
+        have hids1 : w1.gcs.map (·.id) = w.gcs.map (·.id) := by
+          have := allocFold_gcIds rule ops env _ _ (w1, c1, a1) hfold
+          simpa using this
+        have hbat1 : w1.batteries = w.batteries := by
+          have := allocFold_batteries rule ops env _ _ (w1, c1, a1) hfold
+          simpa using this
+        have hcm1 : ∀ g ∈ w1.gcs, 0 ≤ g.curMax := by
+          intro g hg
+          obtain ⟨g0, hg0, _, _, e⟩ := hsm1 g hg
+          rw [e]; exact (h0 g0 (by simpa using hg0)).1
+        -- surplus pass
+        set af : String → α := fun k => availOf a1 k with haf
+        set S : String → α := fun k => max 0 (A0 k - af k) with hS
+        have hbelow1 : Below S w1 := by
+          intro g hg
+          obtain ⟨h1, h2, h3⟩ := hinv1 g hg
+          have : A0 g.id - af g.id ≤ S g.id := le_max_right _ _
+          linarith
+        obtain ⟨hbelow2, hcm2⟩ := distributeSurplus_below ops law env heps S
+          (fun _ => le_max_left _ _) w1 w2 c2 hcm1 hbelow1 hsur
+        have hsm2 : SameMeta w1 w2 := distributeSurplus_sameMeta ops env w1 w2 c2 hsur
+        have hids2 : w2.gcs.map (·.id) = w.gcs.map (·.id) := by
+          rw [distributeSurplus_gcIds ops env w1 w2 c2 hsur, hids1]
+        have hbat2 : w2.batteries = w.batteries := by
+          rw [distributeSurplus_batteries ops env w1 w2 c2 hsur, hbat1]
+        -- battery pass
+        unfold updateBatteries at hub
+        simp only [bind, Except.bind] at hub
+        split at hub
+        · cases hub
+        · rename_i cheap hcheap
+          rw [hbat2] at hub
+          have hnd2 : (w2.gcs.map (·.id)).Nodup := by rw [hids2]; exact hgnd
+          have hbinv : BInv env av af cheap w.batteries w2 := by
+            refine ⟨hcm2, ?_, hnd2, ?_, ?_, ?_, ?_⟩
+            · intro g hg
+              exact cheapList_lookup env w2.gcs hnd2 cheap (by
+                simp only [bind, Except.bind, pure, Except.pure]; exact hcheap) g hg
+            · intro g hg hc
+              obtain ⟨g1, hg1, e1, e2, _⟩ := hsm2 g hg
+              have hc1 : gcCheap env g1 = .ok true := by rw [← gcCheap_congr env g1 g e2]; exact hc
+              have hz : af g.id = A0 g.id := by rw [e1]; exact hch1 g1 hg1 hc1
+              have := hbelow2 g hg
+              have hs0 : S g.id = 0 := by
+                simp only [hS, hz, sub_self, max_self]
+              linarith
+            · intro g hg _
+              have := hbelow2 g hg
+              have hA : A0 g.id = supR av w.batteries g.id := rfl
+              rcases le_total (A0 g.id - af g.id) 0 with hle | hle
+              · have hs0 : S g.id = 0 := max_eq_left hle
+                exact le_trans (by linarith) (le_max_left _ _)
+              · have hs1 : S g.id = A0 g.id - af g.id := max_eq_right hle
+                exact le_trans (by rw [hs1, hA] at this; linarith) (le_max_right _ _)
+            · intro b hb
+              rw [hbat2]
+              exact find_self_of_nodup w.batteries hbnd b hb
+            · intro g hg
+              obtain ⟨g1, hg1, e1, _, _⟩ := hsm2 g hg
+              have := (hinv1 g1 hg1).2.1
+              simp only [haf]; rw [e1]; exact this
+          have hend := batteryFold_binv ops law hex env av af hav0 cheap w.batteries hbnd havb hmin
+            w2 w3 hbinv hub
+          intro g hg
+          obtain ⟨c, _, hc⟩ := hend.cheapOK g hg
+          cases c with
+          | true => exact hend.cheapBound g hg hc
+          | false =>
+            have := hend.dearBound g hg hc
+            have haf0 : 0 ≤ af g.id := hend.af_nonneg g hg
+            simp only [supR, List.filter_nil, List.map_nil, List.sum_nil, add_zero] at this
+            exact le_trans this (max_le (le_refl _) (by linarith))
 
 end SpiceEv
